@@ -43,7 +43,7 @@ BUDGET = {"quick": (200, 80), "thorough": (300, 900)}
 def grid(tier):
     cap = 130 if tier == "quick" else 500
     for nb in range(1, 6):
-        for depth in range(0, 7):
+        for depth in range(0, 14):          # (depths with two-digit indices included)
             if math.comb(nb + depth, depth) <= cap:
                 yield {"kind": "index", "nbath": nb, "depth": depth}
 
@@ -72,7 +72,10 @@ def _dyn(draw, big):
             "depth": draw(st.integers(1, 3)),
             # how the hierarchy is obtained: constructor, or the aggregate's own interface after it has already handed
             # out a hierarchy of another depth
-            "route": draw(st.sampled_from(["ctor", "ctor", "aggregate"]))}
+            "route": draw(st.sampled_from(["ctor", "ctor", "aggregate", "manual-sbi-in-units"])),
+            # (uncoupled sites) the sites are coupled when the propagator is created and used once; the coupling is
+            # then removed from the Hamiltonian object and the same propagator is used again
+            "decouple_after": draw(st.sampled_from([0, 0, 0, 90, -140]))}
 
 
 def strategy(tier):
@@ -157,15 +160,38 @@ def _index(case, ctx):
               rtol=1e-12, scale=max(1e-9, depth * float(numpy.max(gam))), where=where)
 
 
-def _propagate(qr, agg, depth, ta, rho0, route="ctor"):
+def _propagate(qr, agg, depth, ta, rho0, route="ctor", spec=None, decouple=0):
     from quantarhei.qm.liouvillespace.heom import KTHierarchy, KTHierarchyPropagator
     ham = agg.get_Hamiltonian()
     sbi = agg.get_SystemBathInteraction()
     if route == "aggregate":
         hy = agg.get_KTHierarchy(depth)
+    elif route == "manual-sbi-in-units" and spec is not None:
+        # a hand-made system-bath interaction object, put together while other energy units are current
+        from quantarhei.qm import Operator, SystemBathInteraction
+        from quantarhei.qm.corfunctions import CorrelationFunctionMatrix
+        n = len(spec["E"])
+        t0, nt, dt = spec["time"]
+        time = qr.TimeAxis(t0, int(nt), dt)
+        with qr.energy_units("1/cm"):
+            cfs = [qr.CorrelationFunction(time, gens.bath_params(b, spec["T"])) for b in spec["bath"]]
+            cm = CorrelationFunctionMatrix(time, n)
+            for i in range(n):
+                cm.set_correlation_function(cfs[i], [(i, i)])
+            ops = []
+            for i in range(n):
+                K = numpy.zeros((n + 1, n + 1)); K[i + 1, i + 1] = 1.0
+                ops.append(Operator(data=K))
+            sbi2 = SystemBathInteraction(ops, cm)
+        hy = KTHierarchy(ham, sbi2, depth)
     else:
         hy = KTHierarchy(ham, sbi, depth)
     prop = KTHierarchyPropagator(ta, hy)
+    if decouple:
+        # use the propagator once with the coupled sites, then remove the coupling from the Hamiltonian object
+        prop.propagate(qr.ReducedDensityMatrix(data=rho0.copy()))
+        with qr.energy_units("1/cm"):
+            ham.remove_cutoff_coupling(abs(float(decouple)) + 1.0)
     rt = prop.propagate(qr.ReducedDensityMatrix(data=rho0.copy()))
     return numpy.array(rt.data)
 
@@ -215,7 +241,7 @@ def _dynamics(case, ctx):
                 return
     if kind in ("b", "c"):
         depth = case["depth"]
-        ok, data = guarded(ctx, "dynamics/propagate", lambda: _propagate(qr, agg, depth, ta, rho0, route), kind)
+        ok, data = guarded(ctx, "dynamics/propagate", lambda: _propagate(qr, agg, depth, ta, rho0, route, spec=spec), kind)
         if not ok:
             return
         if data.shape != (nt, n + 1, n + 1):
@@ -249,9 +275,19 @@ def _dynamics(case, ctx):
                 ref[:, a, c] = rho0[a, a]
             else:
                 ref[:, a, c] = rho0[a, c] * numpy.exp(-1j * (Hr[a, a] - Hr[c, c]) * t - g[a] - numpy.conj(g[c]))
+    decouple = case.get("decouple_after", 0) if n >= 2 else 0
+    if decouple:
+        ctx.label("d:coupling-removed-after-first-use")
     errs = []
     for depth in depths:
-        ok, data = guarded(ctx, "dynamics/propagate", lambda: _propagate(qr, agg, depth, ta, rho0, route), "d")
+        def one_depth():
+            if decouple:
+                Jc = [[0] * n for _ in range(n)]
+                Jc[0][1] = Jc[1][0] = decouple
+                a = gens.make_aggregate(qr, dict(spec, J=Jc))
+                return _propagate(qr, a, depth, ta, rho0, "ctor", decouple=decouple)
+            return _propagate(qr, agg, depth, ta, rho0, route, spec=spec)
+        ok, data = guarded(ctx, "dynamics/propagate", one_depth, "d" + ("/decoupled-after-first-use" if decouple else ""))
         if not ok:
             return
         valid(data, "d")
